@@ -256,6 +256,11 @@ def runActions (s : Store) (t : Txn) (acts : List String) : Option (Txn × List 
         let (t', ok) := t.setKey s bs
         some (t', outs ++ [if ok then "set" else "dup"])
       | _, _ => none
+    | ["rowkey", h] =>
+      -- `Row.SetKey`: `txn.Key().Set` with the error dropped
+      match s.pk, unhex h with
+      | some _, some bs => some ((t.setKey s bs).1, outs)
+      | _, _ => none
     | ["visit", n] =>
       -- nested `QueryAt(n, …)` inside the callback: only the cursor moves
       n.toNat?.map (fun i => ({ t with cursor := i }, outs))
